@@ -17,5 +17,6 @@ def optional(cls):
     _optional._OPTIONAL_ALIGNMENT = max(scalar.u32._ALIGNMENT, cls._ALIGNMENT)
     _optional._OPTIONAL_SIZE = _optional._OPTIONAL_ALIGNMENT + cls._SIZE
     _optional._OPTIONAL = True
+    _optional._OPTIONAL_OF = cls
     _optional._optional_type = scalar.u32
     return _optional
